@@ -603,7 +603,7 @@ theorem bind_ok_inv {m : M α} {f : α → M β} {s s' : MS} {b : β}
 theorem pure_ok_inv {a b : α} {s s' : MS} (h : (pure a : M α) s = (.ok b, s')) : a = b ∧ s = s' := by
   cases h; exact ⟨rfl, rfl⟩
 
-theorem tick_run {s s' : MS} {u : Unit} (h : tick s = (.ok u, s')) : s'.heap = s.heap := by
+theorem tick_run_prov {s s' : MS} {u : Unit} (h : tick s = (.ok u, s')) : s'.heap = s.heap := by
   unfold tick at h
   split at h
   · cases h; rfl
@@ -614,16 +614,16 @@ theorem alloc_run {n : Node} {s s' : MS} {j : Nat} (h : alloc n s = (.ok j, s'))
     j = s.heap.length ∧ s'.heap = s.heap ++ [n] := by
   unfold alloc at h
   obtain ⟨u, s1, h1, h2⟩ := bind_ok_inv h
-  have ht := tick_run h1
+  have ht := tick_run_prov h1
   unfold allocRaw at h2
   cases h2
   exact ⟨by rw [ht], by simp [ht]⟩
 
-theorem write_run {i : Nat} {n : Node} {s s' : MS} {u : Unit} (h : write i n s = (.ok u, s')) :
+theorem write_run_prov {i : Nat} {n : Node} {s s' : MS} {u : Unit} (h : write i n s = (.ok u, s')) :
     s'.heap = s.heap.set i n := by
   unfold write at h
   obtain ⟨u, s1, h1, h2⟩ := bind_ok_inv h
-  have ht := tick_run h1
+  have ht := tick_run_prov h1
   unfold writeRaw at h2
   cases h2
   simp [ht]
@@ -838,7 +838,7 @@ theorem copyFields_run (f : Ref → Memo → M (Ref × Memo))
         exact ⟨Nat.le_refl _, fun _ => rfl⟩
       · rw [if_neg hd] at h1
         exact ⟨((hf _ v m).frame_run h1).1, fun hc => (hd hc).elim⟩
-    have hw := write_run h3
+    have hw := write_run_prov h3
     have hj2 : j < s2.heap.length := by rw [hw, List.length_set]; omega
     have hn2 : s2.heap[j]? = some (.inst c thaw (acc ++ [(a, p.1)])) := by
       rw [hw]; exact List.getElem?_set_self (by omega)
@@ -1179,7 +1179,7 @@ theorem objDelAttr_run {i c a : Nat} {t : Bool} {fs : List (Nat × Ref)} {s s' :
   rw [run_bind_ok (getInst_of_node hn)] at h
   simp only at h
   split at h
-  · rw [write_run h]
+  · rw [write_run_prov h]
     have hlt : i < s.heap.length := by
       rcases Nat.lt_or_ge i s.heap.length with hlt | hge
       · exact hlt
@@ -1198,7 +1198,7 @@ theorem rawSet_run {i c a : Nat} {t : Bool} {fs : List (Nat × Ref)} {v : Ref} {
     s'.heap = s.heap.set i (.inst c t (alSet a v fs)) := by
   unfold rawSet at h
   rw [run_bind_ok (getInst_of_node hn)] at h
-  exact write_run h
+  exact write_run_prov h
 
 /-- A successful in-place `mutate_attr` with a value other than MISSING stores that value. -/
 theorem mutateAttr_inplace_run (X : Ctx) {i c a : Nat} {t : Bool} {fs : List (Nat × Ref)} {v r : Ref}
@@ -1267,7 +1267,7 @@ theorem delAttr_run_fresh (X : Ctx) (hX : NoClassDnc X) (hM : ∀ n, MakeObj n (
     rw [run_bind_ok (getInst_of_node hn1)] at h2
     simp only at h2
     split at h2
-    · rw [write_run h2, List.length_set]; exact hfr1.1
+    · rw [write_run_prov h2, List.length_set]; exact hfr1.1
     · cases h2
   · obtain ⟨v', hfn, hn', hlen⟩ := installDefault_run X hM (Nat.le_trans hle hfr1.1) hn1 hv h2
     exact ⟨_, hn', Nat.le_trans hfr1.1 hlen, Or.inr ⟨v', hfn, rfl⟩⟩
@@ -1282,7 +1282,7 @@ theorem setThaw_run {i : Nat} {b : Bool} {s s' : MS} {u : Unit} (h : setThaw i b
   cases node with
   | inst c t fs =>
     simp only at h2
-    have hw := write_run h2
+    have hw := write_run_prov h2
     refine ⟨?_, by rw [hw, List.length_set]⟩
     intro c' t' fs' hn'
     rw [hn] at hn'
@@ -2842,7 +2842,7 @@ theorem transformAttr_ps (X : Ctx) (hX : NoClassDnc X) (hW : World X h₀ A TAll
 
 /-! ### `update`, `transform` (top level) -/
 
-theorem mvConstruct_noctor (X : Ctx) (p : MV) (hc : p.ctor = none) (value : Ref) :
+theorem mvConstruct_noctor_prov (X : Ctx) (p : MV) (hc : p.ctor = none) (value : Ref) :
     mvConstruct X p value = pure (value, p.inplace, false) := by
   unfold mvConstruct dictAsCtorArgs
   funext s
@@ -2872,7 +2872,7 @@ theorem update_ps (X : Ctx) (hX : NoClassDnc X) (hW : World X h₀ A TAll) (hM :
     (ha : ∀ av, av ∈ kw → Good h₀.length A av.2) :
     PS h₀ A (update X self kw false) (FreshRef h₀.length) := by
   unfold update mutateValue
-  simp only [mvChoose, mvApply, mvConstruct_noctor, M_pure_bind, bne_self_eq_false,
+  simp only [mvChoose, mvApply, mvConstruct_noctor_prov, M_pure_bind, bne_self_eq_false,
     Bool.false_eq_true, if_false, Bool.not_false, if_true, mvAttrTransforms_nil, M_bind_pure]
   exact (mvAttrs_nonempty X hX hW hM { old := self, attrs := kw } rfl hkw ha self false).bind
     (fun r hr => PS.pure hr)
@@ -2882,7 +2882,7 @@ theorem transform_ps (X : Ctx) (hX : NoClassDnc X) (hW : World X h₀ A TAll) (h
     (self : Ref) (kwf : List (Nat × Cb)) (hkw : kwf ≠ []) :
     PS h₀ A (transform X self kwf false) (FreshRef h₀.length) := by
   unfold transform mutateValue
-  simp only [mvChoose, mvApply, mvConstruct_noctor, M_pure_bind, bne_self_eq_false,
+  simp only [mvChoose, mvApply, mvConstruct_noctor_prov, M_pure_bind, bne_self_eq_false,
     Bool.false_eq_true, if_false, Bool.not_false, if_true, mvAttrs_nil]
   unfold mvAttrTransforms
   simp only
